@@ -10,7 +10,7 @@ from checks import docs, loadlib, loadcheck
 
 PROP = 'C05'
 TARGETS = ['theories/Proofs/TokenizerProofs.v', 'theories/Proofs/GrammarObligations.v', 'theories/Run/RunLoad.v']
-RULE = ('valid documents in canonical element order with random line breaks / blank lines between tokens, block-level comments of both '
+RULE = ('edit locality: a MODULE with 0..64 children of 8 kinds in mixed order x histories of 2..10 single-object edits through the API (push of a new object, long identifier changed, order-preserving removal, swap_remove) with the text written after every step - each step may change only the lines of its object; layout: valid documents in canonical element order with random line breaks / blank lines between tokens, block-level comments of both '
         'kinds, /begin and /end on the line of their tag, no raw line breaks in strings (documents outside this class are filtered out and '
         'counted); plus the written text of every document fed back (own format must be a byte-exact fixpoint); '
         'non-trivial = at least 10 lines; distinct = distinct text')
@@ -99,6 +99,155 @@ def nontrivial_key(c, r):
     return hash(c['text']) if c['text'].count('\n') >= 10 else None
 
 
+# ---------------------------------------------------------------------------------------------- edit locality
+EDIT_KINDS = {2: 'CHARACTERISTIC', 3: 'COMPU_METHOD', 8: 'FUNCTION', 9: 'GROUP', 11: 'MEASUREMENT', 19: 'UNIT', 5: 'COMPU_VTAB', 7: 'FRAME'}
+EDIT_TEXT = {
+    2: '/begin CHARACTERISTIC %s "" VALUE 0 rl 0 NO_COMPU_METHOD 0 1\n%s/end CHARACTERISTIC',
+    3: '/begin COMPU_METHOD %s "" IDENTICAL "%%4.2" ""\n%s/end COMPU_METHOD',
+    5: '/begin COMPU_VTAB %s "" TAB_VERB 1\n%s  1 "one"\n%s/end COMPU_VTAB',
+    7: '/begin FRAME %s "" 1 1\n%s/end FRAME',
+    8: '/begin FUNCTION %s ""\n%s/end FUNCTION',
+    9: '/begin GROUP %s ""\n%s/end GROUP',
+    11: '/begin MEASUREMENT %s "" UBYTE NO_COMPU_METHOD 0 0 0 255\n%s/end MEASUREMENT',
+    19: '/begin UNIT %s "" "" DERIVED\n%s/end UNIT',
+}
+
+
+def edit_cases(rng, tier):
+    """(text, ops): a MODULE with 0..64 children of mixed kinds in mixed order, each on lines of its own, and a history of
+    two to ten single-object edits (half of the histories start with several new objects of the same kind)"""
+    out = []
+    n = 40 if tier == 'quick' else 2500
+    for i in range(n):
+        k = rng.choice([0, 1, 3, 6, 12, 19, 20, 21, 24, 32, 40, 64])
+        ind = '    '
+        names = {}
+        body = []
+        for j in range(k):
+            kind = rng.choice(sorted(EDIT_KINDS))
+            name = 'e%02d' % j
+            names.setdefault(kind, []).append(name)
+            t = EDIT_TEXT[kind]
+            el = t % ((name,) + (ind,) * (t.count('%s') - 1))
+            body.append('\n' * rng.choice([1, 1, 2, 3]) + ind + el)
+        text = 'ASAP2_VERSION 1 71\n/begin PROJECT p ""\n  /begin MODULE m ""' + ''.join(body) + '\n  /end MODULE\n/end PROJECT\n'
+        ops = []
+        fresh = 0
+        heavy = rng.random() < 0.5         # several new objects of one kind, then further edits
+        for step in range(rng.randrange(5, 11) if heavy else rng.randrange(2, 6)):
+            present = [(kd, nm) for kd, l in names.items() for nm in l]
+            what = rng.choice(['push', 'push', 'push', 'set', 'remove', 'swapremove']) if present else 'push'
+            if heavy and step < 6:
+                what = 'push'
+            if what == 'push':
+                kd = rng.choice(sorted(EDIT_KINDS)) if rng.random() < (0.15 if heavy else 0.5) or not ops else ops[-1][1]
+                nm = 'new%d' % fresh
+                fresh += 1
+                names.setdefault(kd, []).append(nm)
+                ops.append(['push', kd, nm])
+            elif what == 'set':
+                kd, nm = rng.choice(present)
+                ops.append(['set', kd, nm, 'edited %d' % step])
+            else:
+                kd, nm = rng.choice(present)
+                if what == 'swapremove' and any(x.startswith('new') for x in names[kd]):
+                    # swap_remove moves the last element of the list into the gap; among objects created through the API (which
+                    # have no position in the file yet) the list order IS the output order, so in a list that holds such objects
+                    # that call moves another object by its own contract.  Objects that came from the file keep their place
+                    # whatever the list order is: there swap_remove is used.
+                    what = 'remove'
+                names[kd].remove(nm)
+                ops.append([what, kd, nm])
+        out.append((text, ops))
+    return out
+
+
+def element_lines(lines, tag, name):
+    """(first, last) line index of /begin TAG name .. /end TAG, or None"""
+    import re
+    start = None
+    for i, ln in enumerate(lines):
+        if start is None and re.search(r'/begin\s+%s\s+%s(\s|$)' % (tag, re.escape(name)), ln):
+            start = i
+        if start is not None and re.search(r'/end\s+%s(\s|$)' % tag, ln):
+            return start, i
+    return None
+
+
+def locality(before, after, op):
+    """None if the step changed only lines that belong to the object of the edit"""
+    import difflib
+    a, b = before.split('\n'), after.split('\n')
+    tag = EDIT_KINDS[op[1]]
+    opcodes = [o for o in difflib.SequenceMatcher(None, a, b, autojunk=False).get_opcodes() if o[0] != 'equal']
+    if op[0] == 'push':
+        rng_ = element_lines(b, tag, op[2])
+        if rng_ is None:
+            return 'the new %s %s is not in the output' % (tag, op[2])
+        # everything outside the lines of the new object (and the blank lines in front of it) is as before
+        lo = rng_[0]
+        while lo > 0 and b[lo - 1].strip() == '':
+            lo -= 1
+        rest = b[:lo] + b[rng_[1] + 1:]
+        if rest != a:
+            k = next((i for i, (x, y) in enumerate(zip(rest, a)) if x != y), min(len(rest), len(a)))
+            return 'adding %s %s changes other lines: line %d was %r, is %r' % (tag, op[2], k + 1, a[k] if k < len(a) else None, rest[k] if k < len(rest) else None)
+        return None
+    if op[0] in ('remove', 'swapremove'):
+        rng_ = element_lines(a, tag, op[2])
+        if rng_ is None:
+            return None
+        lo = rng_[0]
+        while lo > 0 and a[lo - 1].strip() == '':
+            lo -= 1
+        cands = [a[:l] + a[rng_[1] + 1:] for l in range(lo, rng_[0] + 1)]
+        if b not in cands:
+            rest = cands[0]
+            k = next((i for i, (x, y) in enumerate(zip(rest, b)) if x != y), min(len(rest), len(b)))
+            return 'removing %s %s changes other lines: around output line %d: %r' % (tag, op[2], k + 1, b[k] if k < len(b) else None)
+        return None
+    # set
+    rng_ = element_lines(a, tag, op[2])
+    if rng_ is None:
+        return None
+    if len(a) != len(b):
+        return 'changing a field of %s %s changes the number of lines (%d -> %d)' % (tag, op[2], len(a), len(b))
+    for i, (x, y) in enumerate(zip(a, b)):
+        if x != y and not (rng_[0] <= i <= rng_[1]):
+            return 'changing a field of %s %s changes line %d, which does not belong to it: %r -> %r' % (tag, op[2], i + 1, x, y)
+    return None
+
+
+def extra_stage(v, tier, rng, impl):
+    ecs = edit_cases(rng, tier)
+    lines = [sx.enc([t, ops]) for t, ops in ecs]
+    out = fw.run_isolating([impl, 'EDIT'], lines, single_timeout=60)
+    found, steps, big = [], 0, 0
+    for (text, ops), line_in, line in zip(ecs, lines, out):
+        if line is None or line.startswith('DIED'):
+            found.append({'payload': {'kind': 'EDIT', 'case': line_in, 'text': text, 'ops': ops, 'why': 'implementation died', 'stage': 'W (edit locality)'}})
+            continue
+        r = sx.dec(line)
+        if r[0] != b'OK':
+            found.append({'payload': {'kind': 'EDIT', 'case': line_in, 'text': text, 'ops': ops, 'why': 'EDIT: %s' % r[0].decode(), 'stage': 'W (edit locality)'}})
+            continue
+        texts = [x.decode('utf-8', 'replace') for x in r[1:]]
+        if text.count('/begin') > 22:
+            big += 1
+        for i, op in enumerate(ops):
+            steps += 1
+            why = locality(texts[i], texts[i + 1], op)
+            if why:
+                found.append({'payload': {'kind': 'EDIT', 'case': line_in, 'text': text, 'ops': ops, 'step': i, 'why': why,
+                                          'stage': 'W (edit locality)'}})
+                break
+    v.coverage['edit_histories'] = len(ecs)
+    v.coverage['edit_steps'] = steps
+    v.coverage['edit_histories_with_more_than_20_children'] = big
+    v.coverage['edit_locality_failures'] = len(found)
+    return found
+
+
 def check(tier, seed):
     import checks.c05 as me
     return loadcheck.run(me, tier, seed)
@@ -106,4 +255,17 @@ def check(tier, seed):
 
 def replay(r):
     import checks.c05 as me
+    if r.get('kind') == 'EDIT':
+        impl = fw.build_harness()
+        a = sx.dec(fw.run_single([impl, 'EDIT'], r['case'], timeout=120))
+        if a[0] != b'OK':
+            print('implementation:', a[0].decode())
+            return 1
+        texts = [x.decode('utf-8', 'replace') for x in a[1:]]
+        rc = 0
+        for i, op in enumerate(r['ops']):
+            why = locality(texts[i], texts[i + 1], op)
+            print('step %d %s: %s' % (i, op, why or 'only lines of the object change'))
+            rc = rc or (1 if why else 0)
+        return rc
     return loadcheck.replay(r, me)
